@@ -13,8 +13,12 @@ mro_of = z3.Function("mro_of", I, SeqV)      # inspect.getmro(cls) as a sequence
 
 class LibMixin:
     # ------------------------------------------------------------------ ContextVar (token model)
+    def me_of(self, st):
+        """the context the code is currently running in (switched by Context.run)"""
+        return st.snap.get("$me", self.me)
+
     def ctx_cell(self, st):
-        return z3.Select(self.harr(st, "#CTX"), self.me)
+        return z3.Select(self.harr(st, "#CTX"), self.me_of(st))
 
     def ctxvar_method(self, st, recv, name, a):
         self.assumptions.add("contextvars.ContextVar: get/set/reset act on the current context only; set returns a token "
@@ -39,9 +43,9 @@ class LibMixin:
             tok = self.alloc(st, "Token")
             self.hset(st, "tok_old", tok, cur)
             self.hset(st, "tok_used", tok, Val.BoolV(z3.BoolVal(False)))
-            self.hset(st, "tok_ctx", tok, Val.IntV(self.me))
-            st.heap["#CTX"] = z3.Store(self.harr(st, "#CTX"), self.me, box(self.heapify(st, a[0])))
-            st.writes.append(("#CTX", self.me))
+            self.hset(st, "tok_ctx", tok, Val.IntV(self.me_of(st)))
+            st.heap["#CTX"] = z3.Store(self.harr(st, "#CTX"), self.me_of(st), box(self.heapify(st, a[0])))
+            st.writes.append(("#CTX", self.me_of(st)))
             return [Res(st, SV("inst", tok, h="Token"))]
         if name == "reset":
             tok = self.concretize(st, a[0])
@@ -51,11 +55,11 @@ class LibMixin:
             if tok.k != "inst":
                 return [self.raise_new(st, "TypeError")]
             used = Val.bv(self.hget(st, "tok_used", tok.t))
-            same_ctx = self.hget(st, "tok_ctx", tok.t) == Val.IntV(self.me)
+            same_ctx = self.hget(st, "tok_ctx", tok.t) == Val.IntV(self.me_of(st))
 
             def k(s):
-                s.heap["#CTX"] = z3.Store(self.harr(s, "#CTX"), self.me, self.hget(s, "tok_old", tok.t))
-                s.writes.append(("#CTX", self.me))
+                s.heap["#CTX"] = z3.Store(self.harr(s, "#CTX"), self.me_of(st), self.hget(s, "tok_old", tok.t))
+                s.writes.append(("#CTX", self.me_of(st)))
                 self.hset(s, "tok_used", tok.t, Val.BoolV(z3.BoolVal(True)))
                 return [Res(s, SV("none"))]
             return self.may_raise(st, z3.And(z3.Not(used), same_ctx), "RuntimeError", k)
@@ -126,11 +130,13 @@ class LibMixin:
             self.assumptions.add("copy_context() returns a new Context object holding a snapshot of the caller's context; "
                                  "Context.run(f) runs f with that context current: sets persist in it and are invisible to the caller")
             r = self.alloc(st, "Context")
-            self.hset(st, "$ctx_id", r, Val.IntV(self.fresh("ctxid", I)))
-            cid = Val.iv(self.hget(st, "$ctx_id", r))
+            self.hset(st, "ctx_id_", r, Val.IntV(self.fresh("ctxid", I)))
+            cid = Val.iv(self.hget(st, "ctx_id_", r))
+            st.assume(cid != self.me_of(st))
             st.assume(cid != self.me)
             st.heap["#CTX"] = z3.Store(self.harr(st, "#CTX"), cid, self.ctx_cell(st))
-            st.snap["$ncopy"] = st.snap.get("$ncopy", 0) + 1
+            if "NCOPY" in self.ghost_names():
+                st.heap["#NCOPY"] = self.harr(st, "#NCOPY") + 1
             return [Res(st, SV("inst", r, h="Context"))]
         if name == "functools.partial":
             return [Res(st, SV("partial", a[0], x=(a[1:], dict(kw))))]
